@@ -48,12 +48,17 @@ func pemKey(k *rsa.PrivateKey) []byte {
 
 // mint issues a client certificate for cn, signed by (caCert, caKey), or self-signed when caCert is nil.
 func mint(cn string, caCert *x509.Certificate, caKey *rsa.PrivateKey, expired bool, usage []x509.ExtKeyUsage) (tls.Certificate, error) {
+	return mintSAN(cn, []string{cn}, caCert, caKey, expired, usage)
+}
+
+// mintSAN: as mint, with the DNS names of the certificate chosen apart from its subject name.
+func mintSAN(cn string, dns []string, caCert *x509.Certificate, caKey *rsa.PrivateKey, expired bool, usage []x509.ExtKeyUsage) (tls.Certificate, error) {
 	key, err := rsa.GenerateKey(rand.Reader, 2048)
 	if err != nil {
 		return tls.Certificate{}, err
 	}
 	tmpl := &x509.Certificate{
-		SerialNumber: big.NewInt(time.Now().UnixNano()), Subject: pkix.Name{CommonName: cn}, DNSNames: []string{cn},
+		SerialNumber: big.NewInt(time.Now().UnixNano()), Subject: pkix.Name{CommonName: cn}, DNSNames: dns,
 		NotBefore: time.Now().Add(-time.Hour), NotAfter: time.Now().Add(24 * time.Hour),
 		KeyUsage: x509.KeyUsageDigitalSignature | x509.KeyUsageKeyEncipherment, ExtKeyUsage: usage, BasicConstraintsValid: true,
 	}
@@ -209,6 +214,13 @@ func cmdTLS(args []string) int {
 		kinds = append(kinds,
 			credKind{Name: "expired certificate of the configured authority named client-test01", Coq: `(TlsCert Tls13 (CT "client-test01" 1 true true))`, CN: "client-test01", Creds: tlsWith(must(mint("client-test01", realCA, realCAKey, true, clientUsage)), 0)},
 			credKind{Name: "certificate of the configured authority for server use only named client-test01", Coq: `(TlsCert Tls13 (CT "client-test01" 1 false false))`, CN: "client-test01", Creds: tlsWith(must(mint("client-test01", realCA, realCAKey, false, []x509.ExtKeyUsage{x509.ExtKeyUsageServerAuth})), 0)},
+			// names that are NOT a permitted client's or a peer's name, however close: the identity is the subject name, as it stands
+			credKind{Name: "valid certificate named CLIENT-TEST01 (a permitted name in capitals)", Coq: `(TlsCert Tls13 (CT "CLIENT-TEST01" 1 false true))`, CN: "CLIENT-TEST01", Valid: true, Creds: tlsWith(must(mint("CLIENT-TEST01", realCA, realCAKey, false, clientUsage)), 0)},
+			credKind{Name: "valid certificate named Client-Test02", Coq: `(TlsCert Tls13 (CT "Client-Test02" 1 false true))`, CN: "Client-Test02", Valid: true, Creds: tlsWith(must(mint("Client-Test02", realCA, realCAKey, false, clientUsage)), 0)},
+			credKind{Name: "valid certificate without a subject name whose DNS name is client-test01", Coq: `(TlsCert Tls13 (CT "" 1 false true))`, CN: "", Valid: true, Creds: tlsWith(must(mintSAN("", []string{"client-test01"}, realCA, realCAKey, false, clientUsage)), 0)},
+			credKind{Name: "valid certificate named somebody-else whose DNS name is client-test01", Coq: `(TlsCert Tls13 (CT "somebody-else" 1 false true))`, CN: "somebody-else", Valid: true, Creds: tlsWith(must(mintSAN("somebody-else", []string{"client-test01", "signer-test02"}, realCA, realCAKey, false, clientUsage)), 0)},
+			credKind{Name: "valid certificate without a subject name whose DNS name is signer-test02 (a peer)", Coq: `(TlsCert Tls13 (CT "" 1 false true))`, CN: "", Valid: true, Creds: tlsWith(must(mintSAN("", []string{"signer-test02"}, realCA, realCAKey, false, clientUsage)), 0)},
+			credKind{Name: "valid certificate named SIGNER-TEST02 (a peer's name in capitals)", Coq: `(TlsCert Tls13 (CT "SIGNER-TEST02" 1 false true))`, CN: "SIGNER-TEST02", Valid: true, Creds: tlsWith(must(mint("SIGNER-TEST02", realCA, realCAKey, false, clientUsage)), 0)},
 			credKind{Name: "fresh certificate of the configured authority named client-test02", Coq: `(TlsCert Tls13 (CT "client-test02" 1 false true))`, CN: "client-test02", Valid: true, Creds: tlsWith(must(mint("client-test02", realCA, realCAKey, false, clientUsage)), 0)},
 		)
 	}
@@ -471,6 +483,17 @@ func cmdTLS(args []string) int {
 			if got != want[k.CN][wi] {
 				monFail = append(monFail, fmt.Sprintf("caller with [%s] asking to sign with %s: succeeded=%v, but the permissions of %q say %v", k.Name, acct, got, k.CN, want[k.CN][wi]))
 			}
+		}
+		// ... and the identity the key-generation service goes by: only a peer's name, as it stands, is a sender
+		dkgc := pb.NewDKGClient(conn)
+		cctx, ccancel := context.WithTimeout(ctx, 10*time.Second)
+		_, aerr := dkgc.Abort(cctx, &pb.AbortRequest{Account: "Wallet 3/no such generation"})
+		ccancel()
+		isPeer := k.CN == "signer-test01" || k.CN == "signer-test02"
+		refused := aerr != nil && strings.Contains(aerr.Error(), "unknown sender")
+		stats["identity.peer-probes"]++
+		if refused == isPeer {
+			monFail = append(monFail, fmt.Sprintf("caller with [%s] sending Abort to the key-generation service: refused as unknown sender=%v (%v), but subject name %q is a peer's name: %v", k.Name, refused, aerr, k.CN, isPeer))
 		}
 		conn.Close()
 	}
